@@ -47,7 +47,8 @@ class TiledStride:
         # the previous step and the current bound
         steps = [simple_stride]
         for bound in reversed(tile_bounds[1:]):
-            steps = [bound * steps[0] if bound and steps[0] else None, *steps]
+            # (a step of 0 - a broadcast dimension - is a known step, not a dynamic one)
+            steps = [bound * steps[0] if bound is not None and steps[0] is not None else None, *steps]
 
         return TiledStride([Stride(step, bound) for step, bound in zip(steps, tile_bounds)])
 
